@@ -23,7 +23,7 @@ S2_OTHER = Svc("_b._tcp.local.", "s2._b._tcp.local.", "h2.local.", 81, b"", [byt
                [bytes.fromhex("fe800000000000000000000000000002")])
 SHAPES = {"one": [S1], "shared-host": [S1, S2_SHARED], "other-host": [S1, S2_OTHER]}
 
-KINDS = ["qm-ptr", "qm-ptr+srv", "qm-srv", "qu-ptr", "legacy-ptr", "tc-ptr", "protected-ptr", "qm-a", "qm-any"]
+KINDS = ["qm-ptr", "qm-ptr+srv", "qm-srv", "qu-ptr", "legacy-ptr", "tc-ptr", "protected-ptr", "qm-a", "qm-any", "qm-burst"]
 OFFSETS = [1, 19, 21, 119, 121, 250, 399, 401, 499, 501, 999, 1001, 1199]
 U_MS = 5000.0  # withdrawal instant relative to world start (registration finished at ~800 ms)
 HORIZON_MS = 6000.0
@@ -31,7 +31,7 @@ HORIZON_MS = 6000.0
 
 def query_bytes(kind: str) -> Tuple[bytes, int]:
     """(datagram, source port)"""
-    if kind in ("qm-ptr", "protected-ptr"):
+    if kind in ("qm-ptr", "protected-ptr", "qm-burst"):
         return wire.query([("Q", TA, 12, 1)]), 5353
     if kind == "qm-ptr+srv":
         return wire.query([("Q", TA, 12, 1), ("Q", S1.name, 33, 1)]), 5353
@@ -65,7 +65,10 @@ def grid(tier: str) -> List[Dict[str, Any]]:
 
 def run_point(p: Dict[str, Any], verbose: bool = False) -> Tuple[Optional[Dict[str, Any]], str, int]:
     problems: List[str] = []
-    with World(rand=RandPolicy.const(p["jitter"])) as w:
+    # 'qm-burst': two queries 1 ms apart, the first draws the shortest and the second the longest delay, so the
+    # aggregation queue holds two groups and keeps the first until its 500 ms deadline
+    rand = RandPolicy.seq([p["jitter"], 1.0 - p["jitter"]], p["jitter"]) if p["kind"] == "qm-burst" else RandPolicy.const(p["jitter"])
+    with World(rand=rand) as w:
         host = w.new_zeroconf()
         peer = Peer(w)
         svcs = SHAPES[p["shape"]]
@@ -80,6 +83,8 @@ def run_point(p: Dict[str, Any], verbose: bool = False) -> Tuple[Optional[Dict[s
             prime = wire.response(svc_records(S1))
             peer.at(tq - 500, host, prime)
         peer.at(tq, host, data, port)
+        if p["kind"] == "qm-burst":
+            peer.at(tq + 1, host, wire.query([("Q", TA, 12, 1), ("Q", S1.name, 16, 1)], id_=8), port)
         if p["second"] is not None:
             peer.at(t0 + U_MS + p["second"], host, wire.query([("Q", TA, 12, 1), ("Q", S1.name, 16, 1)], id_=7))
         w.advance_to_ms(t0 + U_MS)
